@@ -1,6 +1,7 @@
 """Regenerate the generated parts of DESIGN.md from the committed data.
 
   python -m vf.tools.design_tables seeds     # table of section 12 from seeded/*/meta.json (between the table header and "Lessons")
+  python -m vf.tools.design_tables refresh-counts   # counts column of the table of section 9.2 from evidence/*.json
   python -m vf.tools.design_tables counts    # prints evaluations / distinct non-trivial per property from evidence/*.json
 """
 from __future__ import annotations
@@ -50,5 +51,39 @@ def main():
     print(f"{n} seeds, {first} caught without strengthening, caught by another property's check: {other}")
 
 
+
+
+def _fmt(n):
+    if n >= 1e6:
+        return f"{n / 1e6:.2f} M"
+    if n >= 1e4:
+        return f"{n / 1e3:.0f} k" if n >= 1e5 else f"{n / 1e3:.1f} k"
+    if n >= 1e3:
+        return f"{n / 1e3:.1f} k"
+    return str(n)
+
+
+def refresh_counts():
+    """Third cell of every row of the table of section 9.2 <- evidence/<id>.json (quick tier)."""
+    import re
+
+    dp = VERIF / "DESIGN.md"
+    lines = dp.read_text().split("\n")
+    out = []
+    for ln in lines:
+        m = re.match(r"^\| (C\d\d) \| (.*?) \| ([^|]*?) \| (.*) \|$", ln)
+        ev = VERIF / "evidence" / f"{m.group(1)}.json" if m else None
+        if m and ev.exists() and re.search(r"\d", m.group(3)) and "/" in m.group(3):
+            e = json.loads(ev.read_text())
+            if e.get("tier") == "quick":
+                c = e["coverage"]
+                ln = f"| {m.group(1)} | {m.group(2)} | {_fmt(c['evaluations'])} / {_fmt(c['distinct_nontrivial'])} | {m.group(4)} |"
+        out.append(ln)
+    dp.write_text("\n".join(out))
+
+
 if __name__ == "__main__":
-    main()
+    if len(sys.argv) > 1 and sys.argv[1] == "refresh-counts":
+        refresh_counts()
+    else:
+        main()
